@@ -212,7 +212,7 @@ Failed(truth, o) ==
                            \cup F("variables-none", o.status = "primal infeasible" => o.vars_none)
                            \cup F("multipliers-none", o.status = "dual infeasible" => o.mults_none)
 \* 'dense' / 'sparse' and default / glpk agree: same status and, when optimal, the same optimal value (`agree` from alpha)
-SameResult(obs, judged) == \A i, j \in DOMAIN obs : (judged[i] /\ judged[j] /\ ~obs[i].raised /\ ~obs[j].raised
+SameResult(obs, judged, truth) == truth = "both" \/ \A i, j \in DOMAIN obs : (judged[i] /\ judged[j] /\ ~obs[i].raised /\ ~obs[j].raised
                                                       /\ ~(obs[i].lenient /\ obs[i].status = "unknown") /\ ~(obs[j].lenient /\ obs[j].status = "unknown")) =>
                        obs[i].status = obs[j].status /\ (obs[i].status = "optimal" => obs[i].agree /\ obs[j].agree)
 =============================================================================
